@@ -197,4 +197,22 @@ Proof.
   intros [-> | ->] H; unfold calc_width; destruct (b <? a) eqn:E; try lia; reflexivity.
 Qed.
 
+Theorem calc_trim_text_narrow_spec text a b sc ec :
+  0 <= a <= b -> 0 <= sc < ec -> ec <= b - a ->
+  calc_trim_text wcw MNarrow text a b sc ec = Ok (a + sc, a + ec, 0, 0).
+Proof.
+  intros H1 H2 H3. unfold calc_trim_text, calc_trim_text_gen.
+  destruct (0 <? sc) eqn:E0.
+  - rewrite calc_text_pos_narrow_spec by lia.
+    replace (Z.min b (a + sc)) with (a + sc) by lia.
+    destruct (a + sc - a <? sc) eqn:E1; [lia|].
+    rewrite calc_text_pos_narrow_spec by lia.
+    replace (Z.min b (a + sc + (ec - sc - 0))) with (a + ec) by lia.
+    destruct (a + ec - (a + sc) <? ec - sc - 0) eqn:E2; [lia|]. reflexivity.
+  - assert (sc = 0) by lia. subst sc.
+    rewrite calc_text_pos_narrow_spec by lia.
+    replace (Z.min b (a + (ec - 0 - 0))) with (a + ec) by lia.
+    destruct (a + ec - a <? ec - 0 - 0) eqn:E2; [lia|]. f_equal. f_equal. f_equal. f_equal. lia.
+Qed.
+
 End Wide.
